@@ -40,7 +40,7 @@ func init() {
 		},
 		Setup:        setupTables,
 		AbstractHash: true,
-		MustReach:    []string{"c19.retrieval", "c19.inmemory", "c19.cached", "c19.failed"},
+		MustReach:    []string{"c19.retrieval", "c19.inmemory", "c19.cached", "c19.failed", "c19.afterclose"},
 		Bounds: map[string]string{
 			"quick":    "tables: 1..2 rules (shapes as C01), URL of 5..6 symbolic bytes, every storage retrieval during the query may fail independently (symbolic fault bit per call); storage: 1..3 retrievals of two indexes from a list that may fail at every call",
 			"thorough": "URLs of 4..7 bytes; storage sequences up to 5 retrievals",
